@@ -235,6 +235,11 @@ impl<'r> JEmitter<'r> {
                 let v = self.quoted(&t);
                 self.object(vec![("_kind".into(), "\"time\"".into()), ("val".into(), v)])
             }
+            13 if self.cfg.exotic && self.rng.chance(1, 3) => {
+                let (ts, zone) = crate::gen_zinc::zoned_instant(self.rng);
+                let m = vec![("_kind".to_string(), "\"dateTime\"".to_string()), ("val".to_string(), format!("\"{ts}\"")), ("tz".to_string(), format!("\"{zone}\""))];
+                self.object(m)
+            }
             13 => {
                 let date = format!("2021-06-{:02}", self.rng.range(1, 28));
                 let time = format!("{:02}:{:02}:{:02}", self.rng.range(0, 23), self.rng.range(0, 59), self.rng.range(0, 59));
@@ -316,7 +321,8 @@ impl<'r> JEmitter<'r> {
     }
 
     pub fn grid(&mut self, depth: usize) {
-        let ncols = self.rng.range(1, 4);
+        // degenerate shapes included: no columns at all (with or without rows)
+        let ncols = if self.cfg.exotic && self.rng.chance(1, 12) { 0 } else { self.rng.range(1, 4) };
         let nrows = self.rng.range(0, 4);
         let mut cols: Vec<String> = Vec::new();
         for _ in 0..ncols {
